@@ -1509,6 +1509,38 @@ fn all_redirected_font(rng: &mut Rng) -> GFont {
     f
 }
 
+/// One chain whose first step skips `skip` steps (125..127: the largest SKIP a word can hold is 127): the steps
+/// in between are reachable through labels of other characters, the landing step is reachable only through
+/// the skip and ends the chain.
+fn long_skip_font(rng: &mut Rng, skip: usize) -> GFont {
+    let mut f = GFont::default();
+    for c in 0..40u8 {
+        f.chars.insert(60 + c, GChar { wd: UNITY / 2 + c as i32, ..Default::default() });
+    }
+    // step 0: (KRN 61) SKIP skip ; steps 1..=skip: kerns against 62.. in chains of a few steps ; landing: KRN 99 STOP
+    f.prog.push(GIns { rc: 61, op: GOp::Kern(1111), next: skip as i32 });
+    f.labels.push((60, 0));
+    let mut j = 1;
+    let mut owner = 62u8;
+    while j <= skip {
+        let len = (1 + rng.below(5) as usize).min(skip + 1 - j);
+        if owner < 95 && rng.chance(3, 4) {
+            f.labels.push((owner as i32, j));
+            owner += 1;
+        }
+        for k in 0..len {
+            f.prog.push(GIns { rc: 62 + ((j + k) % 30) as u8, op: GOp::Kern(2000 + (j + k) as i32), next: if k + 1 == len { -1 } else { 0 } });
+        }
+        j += len;
+    }
+    f.prog.push(GIns { rc: 99, op: GOp::Kern(-3333), next: -1 });
+    f.scheme = "LONG SKIP".into();
+    f.family = "X".into();
+    f.ds = 10 * UNITY;
+    f.checksum = Some(11);
+    f
+}
+
 fn random(args: &Args) -> i32 {
     quiet_panics();
     let seed: u64 = args.num("seed", 1);
@@ -1581,6 +1613,16 @@ fn random(args: &Args) -> i32 {
                 *made.entry(name).or_default() += 1;
                 emit(format!("{name}:{guard}"), r.bytes(), false, &mut rng, &mut out, &mut stats);
             }
+        }
+    }
+    for skip in [125usize, 126, 127] {
+        let f = long_skip_font(&mut rng, skip);
+        if let Some(r) = render_raw(&f, &mut rng, Twist::None) {
+            emit(format!("raw-long-skip:{skip}"), r.bytes(), true, &mut rng, &mut out, &mut stats);
+        }
+        let pl = render_pl(&f, &mut rng);
+        if let Ok((b0, _)) = catch(|| tfm::algorithms::pl_to_tfm(&pl)) {
+            emit(format!("pl-long-skip:{skip}"), b0, true, &mut rng, &mut out, &mut stats);
         }
     }
     for k in 0..n_twist.min(2) {
